@@ -158,7 +158,13 @@ class MatchResult:
                     return False
             self._current_match.value_bindings[pattern_value] = value
             return True
-        return self.bind(var_name, value)
+        if not self.bind(var_name, value):
+            return False
+        if pattern_value.check_method is not None:
+            # A named value pattern with a value-level checker (e.g. Var("x", check=f)) is bound by
+            # name; record the pattern object too, so that its checker is run after the match.
+            self._current_match.value_bindings[pattern_value] = value
+        return True
 
     def bind(self, var: str, value: Any) -> bool:
         for match in self._partial_matches:
